@@ -275,6 +275,37 @@ pub fn candidates(u: &Universe) -> Vec<Injection> {
                     if !has_tag_all && !o.tags.has("paste_versions") {
                         out.push(Injection { rule: "no-versions", expect: 6, file: o.file, edits: vec![(ks, ke, "comment = \"verif\";".into())], object: name.clone(), site_class: "own-tags", what: format!("{} tag of {} replaced by a comment tag", key, name) });
                     }
+                    // a type that no longer exists for ONE of the versions its users need
+                    let toks: Vec<&str> = value.split_whitespace().collect();
+                    if toks.len() >= 2 && !has_tag_all {
+                        let ns_of = |tok: &str| -> Vec<Ns> {
+                            if key == "versions" {
+                                match WorldVersion::parse(tok) {
+                                    Some(w) => Expansion::ALL.iter().filter(|e| w.covers(&e.version())).map(|e| Ns::World(*e)).collect(),
+                                    None => vec![],
+                                }
+                            } else if tok == "*" {
+                                LOGIN_VERSIONS.iter().map(|l| Ns::Login(*l)).collect()
+                            } else {
+                                tok.parse::<u8>().ok().map(|l| vec![Ns::Login(l)]).unwrap_or_default()
+                            }
+                        };
+                        for k in 0..toks.len() {
+                            let rest: Vec<Ns> = toks.iter().enumerate().filter(|(i, _)| *i != k).flat_map(|(_, t)| ns_of(t)).collect();
+                            let lost: Vec<Ns> = ns_of(toks[k]).into_iter().filter(|n| !rest.contains(n)).collect();
+                            let user = lost.iter().find_map(|ns| {
+                                let me = u.lookup_idx(*ns, &name)?;
+                                if u.objects[me].file != o.file || u.objects[me].item != o.item {
+                                    return None;
+                                }
+                                u.objects.iter().find(|x| x.in_ns(*ns) && x.container().map(|c| { let mut v = Vec::new(); fields_of(&c.members, "", &mut v); v.iter().any(|(f, _)| matches!(&f.ty, TypeRef::Simple { name: n, .. } | TypeRef::Array { inner: n, .. } if *n == name)) }).unwrap_or(false)).map(|x| (x.name.clone(), ns.text()))
+                            });
+                            if let Some((user, nst)) = user {
+                                let newv: Vec<&str> = toks.iter().enumerate().filter(|(i, _)| *i != k).map(|(_, t)| *t).collect();
+                                out.push(Injection { rule: "type-missing-for-one-version", expect: 1, file: o.file, edits: vec![(value_start, value_end, newv.join(" "))], object: name.clone(), site_class: if k == 0 { "first-version-dropped" } else { "later-version-dropped" }, what: format!("{} no longer has version {} which its user {} needs ({})", name, toks[k], user, nst) });
+                            }
+                        }
+                    }
                     if key == "versions" {
                         out.push(Injection { rule: "both-version-kinds", expect: 16, file: o.file, edits: vec![(ke, ke, " login_versions = \"2\";".into())], object: name.clone(), site_class: fclass, what: format!("{} given login_versions as well", name) });
                         // an overlapping copy of the object at another specificity
